@@ -56,10 +56,10 @@ Proof.
 Qed.
 
 Lemma do_check_inv q s :
-  inv None s -> s_delay s = false ->
+  inv None s -> s_delay s = false -> s_lim s = None ->
   inv None (do_check pl q s) /\ (q = false -> is_checking s = false -> live (do_check pl q s)).
 Proof.
-  intros HI Hd. pose proof HI as [HR [C2 C9]].
+  intros HI Hd Hlim. pose proof HI as [HR [C2 C9]].
   pose proof HR as [S0 I0 NL RL B ND X NDP HL HRg P O D].
   unfold do_check.
   destruct (is_checking s) eqn:Hck; [split; [assumption | intros _ Hx; discriminate]|].
@@ -155,7 +155,7 @@ Lemma invR_frame x s s' :
 Proof.
   intros [S0 I0 NL RL B ND X NDP HL HRg P O D] E1 E2 E3 E4 E5 E6 E7 E8 E9 E10.
   constructor; unfold hqi in *; rewrite ?E1, ?E2, ?E3, ?E4, ?E5, ?E6, ?E7, ?E8, ?E9; auto;
-    try (same_S); try (intros Hd'; apply D; auto; fail).
+    try (eapply invS_same; eauto; fail); try (intros Hd'; apply D; auto; fail).
 Qed.
 
 (* ---------------------------------------------------------------- scheduler tick *)
@@ -244,14 +244,14 @@ Proof.
 Qed.
 
 Lemma do_deliver_inv s i :
-  inv None s ->
+  inv None s -> s_lim s = None ->
   inv None (do_deliver H pl expected s i) /\
   (is_checking s = false -> do_deliver H pl expected s i = s) /\
   (In i (hqi s) -> live s ->
      is_checking (do_deliver H pl expected s i) = false \/
      (live (do_deliver H pl expected s i) /\ meas (do_deliver H pl expected s i) < meas s)).
 Proof.
-  intros HI. pose proof HI as [HR [C2 C9]]. pose proof HR as [S0 I0 NL RL B ND X NDP HL HRg P O D].
+  intros HI Hlim. pose proof HI as [HR [C2 C9]]. pose proof HR as [S0 I0 NL RL B ND X NDP HL HRg P O D].
   unfold do_deliver. destruct (hq_take i (s_hq s)) as [[b q']|] eqn:Ht.
   2:{ split; [assumption|]. split; [reflexivity|]. intros Hin. apply hq_take_none in Ht. contradiction. }
   destruct (hq_take_some _ _ _ _ Ht NDP) as (Hlq & Hndq & Hniq & Hiff).
